@@ -762,7 +762,9 @@ class GroupL1Norm(Ref):
         if self.p == 2:
             nrm = np.sqrt(np.sum(X * X, axis=0))
             return float(nrm.min() / np.sqrt(X.shape[0]))
-        if np.isfinite(self.p) and self.p > 2:
+        if np.isfinite(self.p):
+            # |a_j|^p is not C^2 at a_j = 0 for p < 2 (and the check keeps
+            # the same margin for p > 2)
             return float(np.abs(X).min())
         return 0.0
 
